@@ -101,6 +101,14 @@ def r_conv(ctx):
         for nd, c, callee, q in ctx.calls()[f.fq]:
             if q == 'builtins.int' and len(c.args) == 1 and isinstance(c.args[0], ast.Name) and c.args[0].id == 'number':
                 bad.append((nd.lineno, 'int(number) on the whole decimal string (CPython refuses more than 4300 digits)'))
+            elif q == 'builtins.int' and len(c.args) == 1:
+                a_ = f.term(c.args[0], nd)
+                multi = (a_[0] == 'call' and a_[1][0] == 'attr' and a_[1][2] == 'join') or \
+                    (a_[0] == 'sub' and a_[2][0] == 'slice' and a_[1] == ('v', 'number', 'P')) or \
+                    (a_[0] == 'call' and a_[1][0] == 'attr' and a_[1][2] in ('lstrip', 'strip', 'rstrip') and
+                     any(x == ('v', 'number', 'P') or (x[0] == 'call' and x[1][0] == 'attr' and x[1][2] == 'join') for x in walk_term(a_)))
+                if multi:
+                    bad.append((nd.lineno, 'int(%s) on a whole digit string (CPython refuses more than 4300 digits)' % show(a_)[:40]))
             if q and q.startswith('numpy.'):
                 bad.append((nd.lineno, 'fixed-width numpy arithmetic (%s)' % q))
         run.check(not bad, 'R-CONV', f, 'digit-serial', bad[0][0] if bad else f.node.lineno, 'works digit by digit',
@@ -292,6 +300,28 @@ def r_conv(ctx):
                 continue
             arm = _arm_of(ctx, f, nd, 'type')
             if arm is None:
+                # one loop for both representations (the division itself is dispatched inside): still a digit loop
+                body_ = {x.id for x in f.nodes if nd.id in x.loops}
+                if any(isinstance(d.extra, ast.Attribute) and d.extra.attr in ('insert', 'append') for x in f.nodes
+                       if x.id in body_ for d in x.defs if d.kind == 'mutate'):
+                    arm = 'merged'
+                else:
+                    continue
+            # `while True: ...digit...; if n == 0: break`: the digit is produced before the test, so 0 renders as one digit
+            if isinstance(nd.ast, ast.Constant) and nd.ast.value is True:
+                dom_ = f.dominators()
+                body_ = {x.id for x in f.nodes if nd.id in x.loops}
+                emits = [x.id for x in f.nodes if x.id in body_ for d in x.defs
+                         if d.kind == 'mutate' and isinstance(d.extra, ast.Attribute) and d.extra.attr in ('insert', 'append')]
+                for x in f.nodes:
+                    if x.id in body_ and isinstance(x.stmt, ast.Break) and x.loops[-1] == nd.id and x.conds:
+                        tid = x.conds[-1][2]
+                        if any(e_ in dom_[tid] for e_ in emits):
+                            run.refute('R-CONV', f, '%s:zero-renders-as-no-digit' % arm, x.lineno,
+                                       '%s produces a digit before it tests whether the number is exhausted (do-while): the number 0 '
+                                       'renders as one digit, so a width of 0 gives a non-empty result and set_vt(strand, 1) returns two '
+                                       'symbols' % name, inputs='the number 0 with width 0 (check length 1)')
+            if arm == 'merged':
                 continue
             n += 1
             ok_div = ok_front = ok_digit = False
@@ -443,6 +473,14 @@ def r_shuf(ctx):
                        "random.shuffle, every draw is dominated by random.seed(random_seed), the table is returned")
     f = ctx.p.func('dsw.spiderweb.create_random_shuffles')
     K = ('v', 'observed_length', 'P')
+    # the seed is applied whenever one is given: a truthiness test on it drops the seed 0
+    for nd, c, callee, q in ctx.calls()[f.fq]:
+        if q in ('numpy.random.seed', 'random.seed', 'numpy.random.default_rng', 'numpy.random.RandomState'):
+            for atom, pol in ctx.conds(f, nd):
+                if atom == ('v', 'random_seed', 'P') and pol:
+                    run.refute('R-SHUF', f, 'seed-applied-for-every-seed', nd.lineno,
+                               'the generator is seeded only `if random_seed:`: the seed 0 is falsy and is silently ignored, so two '
+                               'calls with random_seed=0 give different tables', inputs='random_seed=0')
     rets = list(f.stmts(ast.Return))
     if len(rets) != 1 or not isinstance(rets[0].stmt.value, ast.Name):
         raise AnalysisError("rule R-SHUF lost its anchor: return of the table")
